@@ -1109,7 +1109,7 @@ struct Budget {
 fn budget(tier: Tier) -> Budget {
     match tier {
         Tier::Quick => Budget { runs: driver::scale(24000) },
-        Tier::Thorough => Budget { runs: driver::scale(1600000) },
+        Tier::Thorough => Budget { runs: driver::scale(4800000) },
     }
 }
 
